@@ -7,3 +7,7 @@ def run(c, a):
     r = c.tlc_ok("CountClustersMC", cfg="CountClustersMC.cfg", workers=4, timeout=900)
     c.extra["countclusters_model_states"] = r.distinct
     shapeeng.run_engine(c, "C01")
+    # the in/out buffer protocol keeps monotone clusters monotone (HBBuffer.tla: model-checked, then the
+    # TLC-generated passes are replayed on the real harfbuzz.Buffer and judged there)
+    from . import hbbufeng
+    hbbufeng.run_engine(c, "C01")
